@@ -158,6 +158,7 @@ Proof.
     + rewrite cursor_drop_same. erewrite nth_error_upd_same by eassumption. reflexivity.
     + rewrite cursor_drop_other, nth_error_upd_other by assumption. apply IH.
   - (* push *) apply try_push_pushed in H0. destruct H0 as (_ & Hr & _). unfold cursor. rewrite Hr. apply IH.
+  - (* hijack *) rewrite hijack_cursor, hijack_callers. apply IH.
 Qed.
 
 Lemma rcv_inv cs cap t tr s : reach cs cap t tr s -> forall i, has_cursor s i = active_at s i.
@@ -194,6 +195,7 @@ Proof.
   - intros Hq. eapply (Hdrop i (ch s)); eauto.
   - apply try_push_pushed in H0. destruct H0 as (Hl & Hr & _). unfold cursor, tail. rewrite Hr, Hl, app_length. cbn.
     intros Hq. apply IH in Hq. unfold tail in Hq. lia.
+  - rewrite hijack_cursor, hijack_tail. apply IH.
 Qed.
 
 Lemma curle_inv cs cap t tr s : reach cs cap t tr s -> forall i p, cursor (ch s) i = Some p -> p <= tail (ch s).
@@ -281,6 +283,7 @@ Proof.
   - rewrite H. rewrite !in_app_iff. cbn. tauto.
   - rewrite H. rewrite !in_app_iff. cbn. tauto.
   - rewrite !in_app_iff. cbn. intros [Hi|[Hi|[Hi|[E|[]]]]]; [tauto | tauto | tauto |]. subst it. right. split; [reflexivity | assumption].
+  - rewrite hijack_log, hijack_reader, hijack_socket. intros Hin; left; exact Hin.
 Qed.
 
 Definition causal (s : sys) : Prop := forall m r, In (IMsg m) (items s) -> m_rs m = Some r -> unsent s r = false.
@@ -355,6 +358,7 @@ Proof.
   - eapply IH; eauto.
   - eapply IH; eauto.
   - eapply IH; eauto.
+  - rewrite hijack_callers in Hc'. rewrite hijack_cursor in Hcur. rewrite hijack_log in Hn. eapply IH; eauto.
 Qed.
 
 Lemma seen_inv cs cap t tr s : reach cs cap t tr s -> seen_ok s.
@@ -394,4 +398,5 @@ Proof.
   - apply try_recv_got in H1. destruct H1 as (p0 & _ & _ & _ & Hcl & _). now rewrite Hcl.
   - apply try_recv_got in H1. destruct H1 as (p0 & _ & _ & _ & Hcl & _). now rewrite Hcl.
   - apply try_recv_got in H1. destruct H1 as (p0 & _ & _ & _ & Hcl & _). now rewrite Hcl.
+  - rewrite hijack_reader. congruence.
 Qed.
